@@ -233,8 +233,10 @@ pub fn check_content(c: &FmtCase, out: &str, v: &mut Vec<Violation>, probes: &mu
                 Tr::LowerExp => t.contains('e') && !t.contains('E'),
                 Tr::UpperExp => t.contains('E') && !t.contains('e'),
             };
+            // Not a verdict: C20 as stated asks only that the numerals parse back, so an
+            // implementation whose LowerExp output carries no `e` would still conform.
             if !marker_ok(toks[0]) || !marker_ok(toks[2]) {
-                v.push(viol("FMT_NOTATION", format!("{:?} output without its exponent marker: {:?}", c.tr, clip(out))));
+                probes.hit("fmt_exponent_marker_missing_not_a_verdict");
             }
             // non-verdict statistic: byte equality with std's own rendering
             let std_exp = format!(
@@ -258,7 +260,10 @@ pub fn check_content(c: &FmtCase, out: &str, v: &mut Vec<Violation>, probes: &mu
                     format!("first numeral {:?} != f64 rendering {:?} at precision {}", clip(toks[0]), clip(&e0), p),
                 ));
             }
-            if toks[2] != e2 {
+            // the property wants |lo| rendered at precision p and says nothing about
+            // whether the `+` flag reaches the second numeral: accept both spellings
+            let e2_plus = format!("+{e2}");
+            if toks[2] != e2 && !(c.plus && toks[2] == e2_plus) {
                 v.push(viol(
                     "FMT_PREC",
                     format!("second numeral {:?} != f64 rendering {:?} at precision {}", clip(toks[2]), clip(&e2), p),
@@ -518,6 +523,15 @@ pub fn generate(r: &mut Rng, hi: u64, lo: u64) -> FmtCase {
             plan.interrupt_calls.sort_unstable();
             plan.interrupt_calls.dedup();
         }
+        // recount under the benign part of the plan so that the hard fault can land on any
+        // call of the operation as it actually unfolds, and never on an interrupted call
+        let ncalls = {
+            let mut w = SimWriter::new(&plan);
+            match guarded(|| render_tf_io(&mut w, &x, tr, plus, prec)) {
+                Ok(_) => w.calls.max(1),
+                Err(_) => ncalls,
+            }
+        };
         match r.below(3) {
             0 => plan.fail_at_call = Some(r.usize_below(ncalls)),
             1 => plan.zero_at_call = Some(r.usize_below(ncalls)),
@@ -525,6 +539,9 @@ pub fn generate(r: &mut Rng, hi: u64, lo: u64) -> FmtCase {
         }
         if !plan.is_faulty() {
             plan.fail_at_call = Some(r.usize_below(ncalls));
+        }
+        if let Some(k) = plan.fail_at_call.or(plan.zero_at_call) {
+            plan.interrupt_calls.retain(|i| *i != k);
         }
         c.io = Some(plan);
         return c;
